@@ -12,11 +12,12 @@ RULE = ("each logical call (engine, sequences[, query], k, mode) is executed for
         "coordinates; every invalid-argument class must raise on every engine; non-trivial = expected set non-empty")
 ASSUMPTIONS = ["two-collection calls vary one container at a time (star) plus both-permuted, not the full 7x7 product",
                "an invalid argument is 'rejected' when any exception is raised"]
-REQUIRED_CLASSES = {"all": ["series-permuted-labels", "series-shifted-labels", "coo-output", "ndarray-output", "invalid-argument", "non-square-matrix"]}
+REQUIRED_CLASSES = {"all": ["series-permuted-labels", "series-shifted-labels", "coo-output", "ndarray-output", "invalid-argument", "non-square-matrix", "non-integer-distances"]}
 MIN_OUTCOMES = 10
 
 CONTAINERS = ("list", "tuple", "ndarray", "series", "series_shift", "series_perm", "series_str")
 OUTPUTS = ("triplets", "coo_matrix", "ndarray")
+MODES = ("lev", "hamming", "halflev")
 SELF_ENG = ("nearest_neighbor", "symdel", "hash_based", "kdtree")
 TWO_ENG = ("symdel2", "nn2", "SymdelDB", "LookupDB")
 
@@ -43,18 +44,35 @@ def box(seqs, container):
     raise HarnessError(container)
 
 
+def halflev(a, b):
+    from mc.refmodel import ref_lev
+    return ref_lev(a, b) / 2
+
+
+def _cd(mode):
+    return "hamming" if mode == "hamming" else (halflev if mode == "halflev" else None)
+
+
+def expected_for(seqs, k, mode, queries=None):
+    """reference triplets; mode 'halflev' is a callable custom distance with non-integer values (both radii: lev <= k, custom <= inf)"""
+    if mode == "halflev":
+        base = neighbors_within(list(seqs), k, queries=None if queries is None else list(queries))
+        return {(q, r, d / 2) for q, r, d in base}
+    return neighbors_within(list(seqs), k, queries=None if queries is None else list(queries), dist=mode)
+
+
 def call_self(acc, eng, seqs, k, mode, out):
     import pyrepseq
     kw = dict(output_type=out)
-    if mode == "hamming":
-        kw["custom_distance"] = "hamming"
+    if mode != "lev":
+        kw["custom_distance"] = _cd(mode)
     return acc.call(getattr(pyrepseq, eng), seqs, k, **kw)
 
 
 def call_two(acc, eng, ref, query, k, mode, out):
     import pyrepseq
     from pyrepseq.nn import SymdelDB, LookupDB
-    cd = "hamming" if mode == "hamming" else None
+    cd = _cd(mode)
     if eng == "symdel2":
         return acc.call(pyrepseq.symdel, ref, k, custom_distance=cd, output_type=out, seqs2=query)
     if eng == "nn2":
@@ -95,7 +113,7 @@ def check_output(res, out, expected, nrow, ncol, self_mode):
     if dense.shape != (nrow, ncol):
         return ("shape", (dense.shape, "expected", (nrow, ncol)))
     em = expected_matrix(expected, nrow, ncol)
-    if dense.tolist() != em:
+    if dense.tolist() != em:    # numeric comparison: 1 == 1.0, 0.5 != 0
         # orientation diagnosis
         if nrow == ncol or True:
             try:
@@ -160,8 +178,8 @@ def spaces(tier):
                 yield ("invalid2", eng, cont)
 
     return [
-        Space("self-search-formats-x-containers", gen_self, "Lists(U(AC,2),3|4) x k in 1..2 x {levenshtein,hamming} x 4 engines x 3 output types x 7 containers (hash_based k=1 only)", shards=64),
-        Space("two-collection-formats-x-containers", gen_two, "ref in Lists(U(AC,2),2[,3]) x query in Lists(U(AC,1|2),2) x k in 1..2 x 4 engines x 3 outputs x container star (13 combinations + both permuted)", shards=64),
+        Space("self-search-formats-x-containers", gen_self, "Lists(U(AC,2),3|4) x k in 1..2 x {levenshtein, hamming, callable with non-integer values} x 4 engines x 3 output types x 7 containers (hash_based k=1 only)", shards=64),
+        Space("two-collection-formats-x-containers", gen_two, "ref in Lists(U(AC,2),2[,3]) x query in Lists(U(AC,1|2),2) x k in 1..2 x 3 distance modes x 4 engines x 3 outputs x container star (13 combinations + both permuted)", shards=64),
         Space("invalid-arguments", gen_invalid, "%d invalid-argument classes x 5 engines x 3 containers" % len(INVALID)),
     ]
 
@@ -172,30 +190,32 @@ def check_case(case, acc):
         seqs = case[1]
         n = len(seqs)
         for k in (1, 2):
-            for mode in ("lev", "hamming"):
-                expected = neighbors_within(list(seqs), k, dist=mode)
+            for mode in MODES:
+                expected = expected_for(seqs, k, mode)
+                if mode == "halflev":
+                    acc.cls("non-integer-distances")
                 for eng in SELF_ENG:
                     if eng == "hash_based" and k > 1:
                         continue
                     for out in OUTPUTS:
-                        for cont in CONTAINERS:
+                        for cont in (CONTAINERS if mode != "halflev" else ("list", "ndarray", "series_perm", "series_shift")):
                             _one_self(acc, eng, seqs, k, mode, out, cont, expected)
     elif kind == "self1":
         _, eng, seqs, k, mode, out, cont = case
-        _one_self(acc, eng, seqs, k, mode, out, cont, neighbors_within(list(seqs), k, dist=mode))
+        _one_self(acc, eng, seqs, k, mode, out, cont, expected_for(seqs, k, mode))
     elif kind == "two":
         _, ref, query = case
         combos = [(c, "list") for c in CONTAINERS] + [("list", c) for c in CONTAINERS[1:]] + [("series_perm", "series_perm")]
         for k in (1, 2):
-            for mode in ("lev", "hamming"):
-                expected = neighbors_within(list(ref), k, queries=list(query), dist=mode)
+            for mode in MODES:
+                expected = expected_for(ref, k, mode, query)
                 for eng in TWO_ENG:
                     for out in OUTPUTS:
-                        for cr, cq in combos:
+                        for cr, cq in (combos if mode != "halflev" else combos[:1] + combos[3:6] + combos[-1:]):
                             _one_two(acc, eng, ref, query, k, mode, out, cr, cq, expected)
     elif kind == "two1":
         _, eng, ref, query, k, mode, out, cr, cq = case
-        _one_two(acc, eng, ref, query, k, mode, out, cr, cq, neighbors_within(list(ref), k, queries=list(query), dist=mode))
+        _one_two(acc, eng, ref, query, k, mode, out, cr, cq, expected_for(ref, k, mode, query))
     elif kind == "invalid":
         _, name, eng, cont = case
         spec = dict(INVALID)[name]
